@@ -1033,9 +1033,18 @@ def run_workload(plan, srcs, fault=None, interrupt=None, twin=None,
         # __exit__, and an asynchronous exception arriving in that gap skips
         # __exit__ for any program (CPython issue 29988) -- seen once on the
         # unchanged tree, a false alarm of the first version, corrected.
+        # ... nor when it landed while the writer was still ACQUIRING its
+        # handle (constructor / __enter__ / open of a writer object that the
+        # `with` statement or the caller has not received yet): the same
+        # unprotectable gap, only wider (soundness round: a tracts_to_csv
+        # rebuilt on `with TractWriter(...)` was flagged for interrupts
+        # inside TractWriter.__init__).
         on_with_header = False
         if int_holder and int_holder[0].frame_line is not None:
-            on_with_header = int_holder[0].frame_line.lstrip().startswith("with ")
+            on_with_header = (
+                int_holder[0].frame_line.lstrip().startswith("with ")
+                or int_holder[0].frame_func in (
+                    "__init__", "__enter__", "__new__", "open"))
         if kept_exc and kindf != "crash" and op["op"] == "csv" \
                 and not on_with_header:
             import gc
